@@ -1,7 +1,7 @@
 (* C02_Properties.v — property theorems of C02 (semaphore).  Only `exact` of lemmas proved in
    C02_Cons.v / C02_Safe.v, each followed by Print Assumptions. *)
 From Coq Require Import ZArith List Bool Arith.
-From PV Require Import Base.U64 C02.C02_Model C02.C02_Base C02.C02_Cons C02.C02_Safe.
+From PV Require Import Base.U64 C02.C02_Model C02.C02_Base C02.C02_Cons C02.C02_Safe C02.C02_Refute.
 Import ListNotations.
 Local Open Scope Z_scope.
 
@@ -34,3 +34,40 @@ Theorem sem_cas_never_fails : forall c o ths nv s, reachable (init c o ths nv) s
   forall t a mc, (t < nthreads s)%nat -> pcof s t = WCas a mc -> m_count s = mc.
 Proof. exact cas_never_fails. Qed.
 Print Assumptions sem_cas_never_fails.
+
+(* ---- clauses the code does NOT satisfy (findings; witnesses replayed on the implementation) ---- *)
+
+(* F21 "barging": in-order mode, mixed demands.  A quiescent reachable state whose head waiter's
+   demand is covered by the count. *)
+Theorem sem_no_lost_wakeup_inorder_refuted :
+  exists s, reachable (init 0 false four 1) s /\ ooo s = false /\ g_crash s = false /\ ~ nlw_inorder s.
+Proof. exact barge_inorder. Qed.
+Print Assumptions sem_no_lost_wakeup_inorder_refuted.
+
+Theorem sem_no_lost_wakeup_ooo_refuted :
+  exists s, reachable (init 0 true four 1) s /\ ooo s = true /\ g_crash s = false /\ ~ nlw_ooo s.
+Proof. exact barge_ooo. Qed.
+Print Assumptions sem_no_lost_wakeup_ooo_refuted.
+
+(* F9: out-of-order mode, waiters [5,1], signal(1): self-deadlock on q.lock; every participant can only stutter *)
+Theorem sem_ooo_deadlock_refuted : exists s, reachable (init 0 true three 1) s /\
+  pcof s 2 = PIQLock (KScan (CSignal 0) 0 1) 1 /\ qlock s = Some (PT 2) /\ splock s = Some (PT 2) /\
+  Forall (only_stutter s)
+    [LAdv 0; LAdv 1; LAdv 2; LRun 0; LRun 1; LRun 2; LVAdv 0; LStandby 0 0; LStandby 0 1; LStandby 0 2;
+     LExpire 0 0; LExpire 0 1; LExpire 0 2].
+Proof. exact f9_deadlock. Qed.
+Print Assumptions sem_ooo_deadlock_refuted.
+
+(* out-of-order mode, 2 vCPUs: nullptr dereference at thread.cpp 1924 (q.th tested without q.lock at 1921) *)
+Theorem sem_ooo_null_deref_refuted : exists s, reachable (init 0 true [Some O; Some 1%nat] 2) s /\ g_crash s = true.
+Proof. exact ooo_null_deref. Qed.
+Print Assumptions sem_ooo_null_deref_refuted.
+
+(* out-of-order mode, 2 vCPUs, uniform demands: ABBA deadlock between the scan (q.lock then thread.lock)
+   and a waiter's expiry (thread.lock then q.lock) *)
+Theorem sem_ooo_abba_deadlock_refuted : exists s, reachable (init 0 true [Some O; Some O; Some 1%nat] 2) s /\
+  qlock s = Some (PT 2) /\ t_lock (getth s 1) = Some (PV 0) /\
+  pcof s 2 = SCTLock (CSignal 0) 1 1 /\ getv s 0 = VDeqLock 1 /\
+  Forall (only_stutter s) [LAdv 0; LAdv 1; LAdv 2; LRun 0; LRun 1; LVAdv 0; LVAdv 1; LStandby 0 0; LStandby 0 1; LExpire 0 0; LExpire 0 1].
+Proof. exact ooo_abba_deadlock. Qed.
+Print Assumptions sem_ooo_abba_deadlock_refuted.
